@@ -228,6 +228,7 @@ func runOne(w *World, tape *sim.Tape, focus string, tier string, trace bool, sch
 			cfg.StallPer1k = []int{0, 0, 0, 15, 80}[tape.Choose(5, "stall-rate")]
 			cfg.LatePer1k = []int{0, 0, 0, 250}[tape.Choose(4, "late-rate")]
 			cfg.AsyncTimerChan = tape.Choose(3, "timerchan") == 2
+			cfg.ClockTickPer1k = []int{0, 0, 0, 0, 500}[tape.Choose(5, "clock-tick-rate")]
 		}
 		if w.TaskStalls {
 			cfg.TaskStallPer1k = []int{0, 0, 0, 25}[tape.Choose(4, "task-stall-rate")]
@@ -275,6 +276,9 @@ func runOne(w *World, tape *sim.Tape, focus string, tier string, trace bool, sch
 			}
 			if out.TaskStalls > 0 {
 				r.Faults["task_stall"] += out.TaskStalls
+			}
+			if out.ClockTicks > 0 {
+				r.Faults["clock_tick"] += out.ClockTicks
 			}
 			if len(out.Panics) > 0 {
 				r.Violate(focus, "panic/"+panicSig(out.Panics[0]), "%s", out.Panics[0])
